@@ -1,16 +1,24 @@
 (* Property C09: pattern matching binds exactly what construction would produce.
-   PARTIAL.  The reference semantics of patterns (Eval/Interp.v bind_pat: names,
-   _, literal/(expr) patterns, array / tuple / dict / set patterns with ...rest and
-   ?:fallbacks, nested to any depth) defines matching "by reconstruction"; the
-   theorems below cover the clauses that are independent of the pattern's shape:
-   repeated names must agree on VALUES, literal patterns match exactly the equal
-   value, a non-matching let is an error (never a silent binding), cond takes the
-   first matching arm and skips non-matching ones, array patterns only match
-   dense zero-based arrays.  The general statement "bind p v = Ok s  iff  the
-   pattern read as an expression under s rebuilds v" is NOT proved for arbitrary
-   nesting; it is what the correspondence run checks against the implementation
-   on the pattern x value product (matching, near-miss and wrong-kind values). *)
-From Arrai Require Import Base.Val Spec.SetAlg Eval.Interp Proofs.ValOrder Proofs.PatternP Proofs.PatArrP Proofs.PatTupP Proofs.PatSetP Proofs.PatDictP.
+   The reference semantics of patterns is Eval/Interp.v bind_pat (names, _, literal/(expr) patterns,
+   (e1, e2, ..) alternatives, array / tuple / dict / set patterns with ...rest and ?:fallbacks, nested to
+   any depth).
+
+   GENERAL THEOREM (second half of this file, Proofs/PatGenP.v): for every pattern without a
+   conditional-accessor item (`x?:d`, Unspec in the model - the side condition [pat_nofb]), every nesting
+   depth, every value, every enclosing scope:
+     the match succeeds with bindings equivalent to s   <->
+     p read as an expression under s rebuilds v  /\  s binds exactly the names of p
+   ([C09_match_iff_rebuilds]; [rebuilds] is Eval/Rebuild.v: names -> s(name), _ -> any value,
+   literal/(expr) -> its value, (e1, e2, ..) -> the value of one alternative, array/tuple/dict/set
+   patterns -> the constructor over the rebuilt components, ...rest -> splice; repeated names are consistent because s is one assignment).  The fuel
+   only has to be large enough ([C09_match_fuel_stable], from Proofs/FuelP.v).  Corollaries: matching is a
+   function of pattern and value, the rebuilding assignment is unique, enumeration order of set members
+   is irrelevant; a let / parameter / cond arm yields a value only through bindings that rebuild, an arm
+   is skipped only when no assignment rebuilds; every name of the pattern is bound exactly once and no
+   other name changes.
+   The first half keeps the earlier per-family statements (flat array / tuple / dict / set patterns). *)
+From Coq Require Import Permutation.
+From Arrai Require Import Base.Val Spec.SetAlg Eval.Interp Eval.Rebuild Proofs.ValOrder Proofs.PatternP Proofs.PatArrP Proofs.PatTupP Proofs.PatSetP Proofs.PatDictP Proofs.PatGenP.
 
 Theorem C09_repeated_names_must_agree :
   forall t s r x a w, env_matched_update s t = Some r -> env_get x s = Some (D a) -> In (x, w) t -> w = D a.
@@ -164,3 +172,148 @@ Theorem C09_flat_dict_pattern_binds_entries :
       (forall k' x, In (k', x) es -> exists kl, In kl kls /\ veqb (norm (fst kl)) k' = true).
 Proof. exact flat_dict_pattern_sound. Qed.
 Print Assumptions C09_flat_dict_pattern_binds_entries.
+
+
+(* ================= the general statement: patterns nested to any depth ================= *)
+
+(* bind_pat succeeds with bindings that give every name the value s gives it  <->  the pattern, read as an
+   expression under s, rebuilds the value, and s binds exactly the names of the pattern *)
+Theorem C09_match_iff_rebuilds :
+  forall p rho v s, pat_nofb p = true ->
+    ((exists n sc, bind_pat n rho p v = Ok sc /\ env_equiv sc s) <-> (rebuilds rho s p v /\ binds_exactly p s)).
+Proof. exact match_iff_rebuilds. Qed.
+Print Assumptions C09_match_iff_rebuilds.
+
+(* in particular the bindings a match returns rebuild the value *)
+Theorem C09_match_rebuilds :
+  forall p rho v n sc, pat_nofb p = true -> bind_pat n rho p v = Ok sc -> rebuilds rho sc p v /\ binds_exactly p sc.
+Proof. exact match_rebuilds. Qed.
+Print Assumptions C09_match_rebuilds.
+
+(* ... and whenever some assignment rebuilds the value, the match succeeds for every fuel large enough *)
+Theorem C09_rebuildable_value_matches :
+  forall p rho s v, pat_nofb p = true -> rebuilds rho s p v ->
+    exists n, forall m, (n <= m)%nat -> exists sc, bind_pat m rho p v = Ok sc /\ (forall x w, env_get x sc = Some w -> env_get x s = Some w).
+Proof. intros p rho s v. exact (bind_complete (pat_depth p) p (le_n _) rho s v). Qed.
+Print Assumptions C09_rebuildable_value_matches.
+
+Theorem C09_match_fuel_stable :
+  forall n m rho p v sc, (n <= m)%nat -> bind_pat n rho p v = Ok sc -> bind_pat m rho p v = Ok sc.
+Proof. exact match_fuel_stable. Qed.
+Print Assumptions C09_match_fuel_stable.
+
+(* corollary 1: matching is deterministic; the rebuilding assignment is unique; the order in which the
+   members of a set are enumerated does not matter *)
+Theorem C09_match_deterministic :
+  forall n m rho p v sc sc', bind_pat n rho p v = Ok sc -> bind_pat m rho p v = Ok sc' -> sc = sc'.
+Proof. exact match_deterministic. Qed.
+Print Assumptions C09_match_deterministic.
+
+Theorem C09_rebuilding_assignment_unique :
+  forall p rho v s1 s2, pat_nofb p = true ->
+    rebuilds rho s1 p v -> binds_exactly p s1 -> rebuilds rho s2 p v -> binds_exactly p s2 -> env_equiv s1 s2.
+Proof. exact rebuilding_assignment_unique. Qed.
+Print Assumptions C09_rebuilding_assignment_unique.
+
+Theorem C09_match_ignores_enumeration_order :
+  forall n rho p l l', Permutation l l' -> bind_pat n rho p (D (mkset l)) = bind_pat n rho p (D (mkset l')).
+Proof. exact match_ignores_enumeration_order. Qed.
+Print Assumptions C09_match_ignores_enumeration_order.
+
+(* corollary 2: a non-matching pattern never binds anything *)
+Theorem C09_no_rebuild_no_match :
+  forall p rho v, pat_nofb p = true -> (forall s, ~ rebuilds rho s p v) -> forall n sc, bind_pat n rho p v <> Ok sc.
+Proof. exact no_rebuild_no_match. Qed.
+Print Assumptions C09_no_rebuild_no_match.
+
+Theorem C09_match_error_means_not_rebuildable :
+  forall p rho v n, pat_nofb p = true -> bind_pat n rho p v = Err -> forall s, ~ rebuilds rho s p v.
+Proof. exact match_error_no_rebuild. Qed.
+Print Assumptions C09_match_error_means_not_rebuildable.
+
+Theorem C09_let_value_only_through_rebuild :
+  forall n rho p e1 e2 r, pat_nofb p = true -> eval n rho (ELet p e1 e2) = Ok r ->
+    exists m v sc, eval m rho e1 = Ok v /\ rebuilds rho sc p v /\ binds_exactly p sc /\ eval m (sc ++ rho) e2 = Ok r.
+Proof. exact let_value_only_through_rebuild. Qed.
+Print Assumptions C09_let_value_only_through_rebuild.
+
+Theorem C09_let_without_rebuild_has_no_value :
+  forall n rho p e1 e2 v, pat_nofb p = true -> eval n rho e1 = Ok v -> (forall s, ~ rebuilds rho s p v) ->
+    forall m r, eval m rho (ELet p e1 e2) <> Ok r.
+Proof. exact let_no_rebuild_no_value. Qed.
+Print Assumptions C09_let_without_rebuild_has_no_value.
+
+Theorem C09_parameter_value_only_through_rebuild :
+  forall n rho p body a r, pat_nofb p = true -> eval n rho (ECall (EFn p body) a) = Ok r ->
+    exists m v sc, eval m rho a = Ok v /\ rebuilds rho sc p v /\ binds_exactly p sc /\ eval m (sc ++ rho) body = Ok r.
+Proof. exact call_value_only_through_rebuild. Qed.
+Print Assumptions C09_parameter_value_only_through_rebuild.
+
+(* a cond arm is taken only with bindings that rebuild the control value, and passed over only when no
+   assignment rebuilds it *)
+Theorem C09_cond_arm_only_through_rebuild :
+  forall n rho c p body arms r, pat_nofb p = true ->
+    eval (S n) rho (ECondPat c ((p, body) :: arms)) = Ok r ->
+    exists v, eval n rho c = Ok v /\
+      ((exists sc, rebuilds rho sc p v /\ binds_exactly p sc /\ eval n (sc ++ rho) body = Ok r) \/
+       ((forall s, ~ rebuilds rho s p v) /\ eval (S n) rho (ECondPat c arms) = Ok r)).
+Proof. exact cond_arm_only_through_rebuild. Qed.
+Print Assumptions C09_cond_arm_only_through_rebuild.
+
+(* corollary 3: every name of the pattern is bound exactly once, and no other name changes *)
+Theorem C09_match_binds_each_name_once :
+  forall p rho v n sc, pat_nofb p = true -> bind_pat n rho p v = Ok sc ->
+    NoDup (map fst sc) /\ (forall x, In x (map fst sc) <-> In x (pat_names p)).
+Proof. exact match_binds_each_name_once. Qed.
+Print Assumptions C09_match_binds_each_name_once.
+
+Theorem C09_match_leaves_other_names :
+  forall p rho v n sc (outer : env) x, pat_nofb p = true -> bind_pat n rho p v = Ok sc ->
+    ~ In x (pat_names p) -> env_get x (sc ++ outer) = env_get x outer.
+Proof. exact match_leaves_other_names. Qed.
+Print Assumptions C09_match_leaves_other_names.
+
+(* non-vacuity: (a: [x, ...r, {y}], b: {1: x, ...d}, ...t)  against  (a: [1, 2, 3, {4}], b: {1: 1, 2: 5}, c: 7):
+   depth 3, ...rest at three levels, x repeated across levels *)
+Definition ex_pat : pat :=
+  PTup [([97], PItem (PArr [PItem (PVar [120]) None; PExtra (Some [114]);
+                            PItem (PSet [PItem (PVar [121]) None]) None]) None);
+        ([98], PItem (PDict [(ELit (vint 1), PItem (PVar [120]) None); (ELit (VSet []), PExtra (Some [100]))]) None);
+        ([], PExtra (Some [116]))].
+Definition ex_expr (last : Z) : expr :=
+  ETupE [([97], EArrE [Some (ELit (vint 1)); Some (ELit (vint 2)); Some (ELit (vint 3)); Some (ESetE [ELit (vint 4)])]);
+         ([98], EDictE [(ELit (vint 1), ELit (vint last)); (ELit (vint 2), ELit (vint 5))]);
+         ([99], ELit (vint 7))].
+Definition ex_val (last : Z) : val := Eval vm_compute in match run_data 60 (ex_expr last) with Ok v => v | _ => VSet [] end.
+Definition ex_sc : env := Eval vm_compute in match bind_pat 60 [] ex_pat (D (ex_val 1)) with Ok sc => sc | _ => [] end.
+
+Example C09_nested_example :
+  pat_nofb ex_pat = true /\ bind_pat 60 [] ex_pat (D (ex_val 1)) = Ok ex_sc /\
+  env_get [120] ex_sc = Some (D (vint 1)) /\ env_get [116] ex_sc = Some (D (VTup [([99], vint 7)])) /\
+  rebuilds [] ex_sc ex_pat (D (ex_val 1)) /\ binds_exactly ex_pat ex_sc.
+Proof.
+  assert (H : bind_pat 60 [] ex_pat (D (ex_val 1)) = Ok ex_sc) by (vm_compute; reflexivity).
+  split; [reflexivity|]. split; [exact H|]. split; [reflexivity|]. split; [reflexivity|].
+  exact (C09_match_rebuilds ex_pat _ _ _ _ eq_refl H).
+Qed.
+
+(* ... and the near-miss (b: {1: 2, ..}) where the repeated x disagrees: an error, hence no assignment rebuilds it *)
+Example C09_nested_near_miss :
+  bind_pat 60 [] ex_pat (D (ex_val 2)) = Err /\ forall s, ~ rebuilds [] s ex_pat (D (ex_val 2)).
+Proof.
+  assert (H : bind_pat 60 [] ex_pat (D (ex_val 2)) = Err) by (vm_compute; reflexivity).
+  split; [exact H|]. exact (C09_match_error_means_not_rebuildable ex_pat _ _ _ eq_refl H).
+Qed.
+
+(* (e1, e2, ..) patterns (rel/pattern_expr.go ExprsPattern): (1, 2) matches 2 and not 3 *)
+Example C09_alternatives_example :
+  bind_pat 10 [] (PExprs [ELit (vint 1); ELit (vint 2)]) (D (vint 2)) = Ok [] /\
+  rebuilds [] [] (PExprs [ELit (vint 1); ELit (vint 2)]) (D (vint 2)) /\
+  forall s, ~ rebuilds [] s (PExprs [ELit (vint 1); ELit (vint 2)]) (D (vint 3)).
+Proof.
+  assert (H : bind_pat 10 [] (PExprs [ELit (vint 1); ELit (vint 2)]) (D (vint 2)) = Ok []) by (vm_compute; reflexivity).
+  split; [exact H|]. split.
+  - exact (proj1 (C09_match_rebuilds (PExprs [ELit (vint 1); ELit (vint 2)]) _ _ _ _ eq_refl H)).
+  - apply (C09_match_error_means_not_rebuildable (PExprs [ELit (vint 1); ELit (vint 2)]) [] (D (vint 3)) 10 eq_refl).
+    vm_compute. reflexivity.
+Qed.
